@@ -3,6 +3,7 @@ import ast
 
 from .. import ordtype as O
 from ..loader import AnalysisError, norm_stmt
+from ..small import arms, find_ifs, ifexp_arms
 
 FIT = "covmodel/fit.py"
 
@@ -252,10 +253,11 @@ def pre_para(ctx, rule="R10.5"):
     ctx.check(ok, rule, FIT + "::_pre_para", "a fixed variance is applied after all other fixed values", "var-last")
     unk = any(isinstance(s, ast.If) and ast.unparse(s.test) == "par not in model.arg_bounds" and any(isinstance(x, ast.Raise) for x in s.body) for s in ast.walk(pp))
     ctx.check(unk, rule, FIT + "::_pre_para", "unknown parameter names raise", "unknown")
-    sb = [s for s in pp.body if isinstance(s, ast.If) and ast.unparse(s.test) == "sill is not None"]
+    sb = find_ifs(pp.body, "sill is not None")
     if len(sb) != 1:
         raise AnalysisError("anchor vanished: sill block in _pre_para")
-    chain = [s for s in sb[0].body if isinstance(s, ast.If) and "para_select" in ast.unparse(s.test)]
+    sill_arm, nosill_arm = sb[0][1], sb[0][2]
+    chain = [s for s in sill_arm if isinstance(s, ast.If) and "para_select" in ast.unparse(s.test)]
     branches = []
     node = chain[0] if chain else None
     while node is not None:
@@ -279,9 +281,9 @@ def pre_para(ctx, rule="R10.5"):
         txt = [norm_stmt(x) for st in body for x in ast.walk(st) if isinstance(x, ast.Assign)]
         desc, need = want[test]
         ctx.check(all(x in txt for x in need), rule, FIT + "::_pre_para", "case `%s`: %s" % (test, desc), "sill:" + test)
-    rng = any(isinstance(s, ast.If) and ast.unparse(s.test) == "not sill_low <= sill <= sill_up" and any(isinstance(x, ast.Raise) for x in s.body) for s in sb[0].body)
+    rng = any(isinstance(s, ast.If) and ast.unparse(s.test) == "not sill_low <= sill <= sill_up" and any(isinstance(x, ast.Raise) for x in s.body) for s in sill_arm)
     ctx.check(rng, rule, FIT + "::_pre_para", "a sill outside [var_min + nugget_min, var_max + nugget_max] raises", "sill-range")
-    a = {ast.unparse(s.targets[0]): ast.unparse(s.value) for s in sb[0].body if isinstance(s, ast.Assign)}
+    a = {ast.unparse(s.targets[0]): ast.unparse(s.value) for s in sill_arm if isinstance(s, ast.Assign)}
     ctx.check(a.get("sill") == "model.sill if isinstance(sill, bool) else float(sill)" and a.get("constrain_sill") == "True", rule, FIT + "::_pre_para", "sill=False keeps the model's present sill; a number prescribes it", "sill-value")
     ret = [ast.unparse(s.value) for s in pp.body if isinstance(s, ast.Return)]
     ctx.check(ret == ["(para, sill, constrain_sill, anis)"], rule, FIT + "::_pre_para", "returns (selection, sill, constrain flag, anis flag)", "return")
